@@ -35,7 +35,8 @@ def check_vf(spec, cfg, probes, pprobes, res: CaseResult, tag=""):
     sp = rm.state_paths
     vec = bool(cfg.get("vectorize"))
     try:
-        c = compile_vf(spec, vectorize=vec, inplace=bool(cfg.get("inplace", True)))
+        c = compile_vf(spec, vectorize=vec, inplace=bool(cfg.get("inplace", True)),
+                       **({"matrix_sparseness": cfg["matrix_sparseness"]} if cfg.get("matrix_sparseness") is not None else {}))
     except HarnessError:
         raise
     except Exception as e:
@@ -221,4 +222,44 @@ class VfVecArm(VfArm):
     required_labels = ("parallel_edges", "fan_in", "edge_template")    # (unique initial values: no shared node templates)
 
 
-ARMS = [VfArm(), VfVecArm()]
+class VfCrossTypeArm(VfArm):
+    """vectorised vector field of projections between two node types (the shapes of C04's cross_type arm: 1-3 source nodes,
+    2-12 target nodes, pairwise distinct targets, optional back projection): with ten and more targets of one scalar
+    source the edges are realised by indexing instead of a matrix product, and the weight argument must hold one value
+    per edge"""
+    name = "vf_cross_type"
+    vectorize = True
+    budget = {"quick": 120, "thorough": 2000}
+    min_per_shard = 6
+    required_labels = ("targets>=10",)
+
+    def strategy(self, ctx):
+        from .c04 import CrossTypeArm
+        inner = CrossTypeArm().strategy(ctx)
+
+        @st.composite
+        def case(draw):
+            c = draw(inner)
+            rm = RefModel(c["spec"])
+            probes = draw(gen.probes_strategy(len(rm.state_paths), n=3))
+            pp = draw(st.lists(st.lists(st.floats(-2, 2, allow_nan=False).map(lambda v: round(v, 3)), min_size=4,
+                                        max_size=4), min_size=2, max_size=2))
+            cfg = {"vectorize": True, "inplace": True}
+            if c["cfg"].get("matrix_sparseness") is not None:
+                cfg["matrix_sparseness"] = c["cfg"]["matrix_sparseness"]
+            return {"spec": c["spec"], "cfg": cfg, "probes": probes, "pprobes": pp, "shape": c.get("shape"), "m": c.get("m", 0),
+                    "_repaired": c.get("_repaired", [])}
+        return case()
+
+    def run(self, case, ctx):
+        if case.get("shape") == "none":
+            res = CaseResult()
+            res.rejected = "node type without input or state variable"
+            return res
+        res = super().run(case, ctx)
+        if case.get("m", 0) >= 10:
+            res.labels = sorted(set(res.labels) | {"targets>=10"})
+        return res
+
+
+ARMS = [VfArm(), VfVecArm(), VfCrossTypeArm()]
